@@ -441,7 +441,8 @@ func (c *Cluster) StartNode(i int) *Node {
 	if r, ok := n.AggSigDB.(interface{ Run(context.Context) }); ok {
 		verifrt.Go(func() { r.Run(ctx) })
 	}
-	verifrt.Go(func() { <-ctx.Done(); n.DutyDB.Shutdown() })
+	done := ctx.Done()
+	verifrt.Go(func() { verifrt.Recv(done); n.DutyDB.Shutdown() })
 	c.Nodes[i] = n
 	return n
 }
